@@ -1,7 +1,7 @@
 #!/bin/bash
 # For every "fixed:" entry of KNOWN_FINDINGS.txt: revert that commit in a scratch worktree and run the property's
 # check against it. The check must report a violation (a fixed entry suppresses nothing).
-cd /verif
+cd "$(dirname "$0")/.."
 export GOFLAGS=-mod=mod GOPROXY=off GOSUMDB=off GOTOOLCHAIN=local
 grep "^fixed:" KNOWN_FINDINGS.txt | grep -E "${1:-.}" | while read -r _ prop hash rest; do
   id=${prop#property=}
